@@ -40,7 +40,7 @@ def plans(quick):
     ] + [
         dict(family=f, opts=opts, checks=[dict(steps=5, slots=2)],
              gen=dict(steps=5, slots=1, lists=[l for l in ls]), walks=300, walk_len=14,
-             sim=dict(num=2000, depth=16, slots=2))
+             sim=dict(num=700, depth=16, slots=2))
         for f, ls in (('chain', [['r1', 'r2'], ['r1', 'r3'], ['r1', 'r4']]),
                       ('mounts', [['u1', 'm12'], ['c11'], ['c21'], ['ml', 'mr']]),
                       ('diamond', [['d1', 'd2'], ['d2', 'd3']]),
